@@ -391,42 +391,9 @@ def rule_SS4(ctx, rep, scope=None):
     """x-coordinate convention: party i <-> evaluation point i+1, everywhere."""
     model = ctx.model
     n = 0
-    # (a) runtime: every tuple flowing into recombine/np_recombine
-    for q in ('output', '_reshare'):
-        fn = model.func(RT + q)
-        pm = parents(fn.node)
-        rec = [c for c in iter_nodes(fn.node) if isinstance(c, ast.Call) and isinstance(c.func, ast.Name) and c.func.id == 'recombine']
-        if len(rec) != 1:
-            raise AnalysisError(f'SS4: recombine call not found in {fn.key}')
-        pts = rec[0].args[1]
-        tuples = []
-        for st, v, how in definitions(fn.node, pts.id) if isinstance(pts, ast.Name) else []:
-            if isinstance(v, ast.ListComp) and isinstance(v.elt, ast.Tuple):
-                tuples.append((v.elt, v))
-        for c in calls_named(fn.node, 'append'):
-            if isinstance(c.func.value, ast.Name) and isinstance(pts, ast.Name) and c.func.value.id == pts.id and c.args and isinstance(c.args[0], ast.Tuple):
-                tuples.append((c.args[0], None))
-        if len(tuples) < 2:
-            raise AnalysisError(f'SS4: point tuples not found in {fn.key}')
-        for tup, comp in tuples:
-            n += 1
-            P = _plus_one_party(tup.elts[0])
-            if P is None:
-                rep.bad('SS4', fn, tup, f'x-coordinate {norm(tup.elts[0])} is not <party index> + 1: the share is attributed to a wrong evaluation point '
-                        '(recombination yields a wrong value at some parties)')
-                continue
-            if comp is None:
-                if norm(P) in ('self.pid',):
-                    rep.ok('SS4', fn, tup, 'own share at x = self.pid + 1')
-                else:
-                    rep.bad('SS4', fn, tup, f'own share is attributed to party {norm(P)}, not self.pid')
-                continue
-            # party of the point must be the party the share was received from
-            ok, why = _point_matches_receive(fn, pm, tup, comp, P)
-            if ok:
-                rep.ok('SS4', fn, tup, why)
-            else:
-                rep.bad('SS4', fn, tup, why)
+    # (a) runtime: every tuple flowing into recombine/np_recombine (decided on the routing summaries)
+    from . import rules_rt
+    n += rules_rt.rule_SS4_points(ctx, rep)
     # (b) thresha conventions
     fs = model.func('thresha::_f_S_i')
     comp = [c for c in iter_nodes(fs.node) if isinstance(c, ast.ListComp) and isinstance(c.elt, ast.Tuple)]
@@ -483,97 +450,10 @@ def rule_SS4(ctx, rep, scope=None):
         else:
             rep.bad('SS4', fg, c, 'the Lagrange coefficient used for the local share is not the one of point pid+1 among 1..m at 0: the parties\' '
                     'contributions do not combine to a^x')
-    # (d) dealing rows: row index == receiving party
-    fd = model.func(RT + '_distribute')
-    pmd = parents(fd.node)
-    sends = calls_named(fd.node, '_send_message')
-    for c in sends:
-        n += 1
-        lp = [l for l in enclosing_loops(c, pmd, stop=fd.node) if isinstance(l, ast.For)]
-        good = False
-        if lp and isinstance(lp[0].iter, ast.Call) and attr_tail(lp[0].iter.func) == 'enumerate' and isinstance(lp[0].target, ast.Tuple):
-            idxv, datav = [norm(x) for x in lp[0].target.elts]
-            src = lp[0].iter.args[0]
-            sd = resolve_value(fd.node, src)
-            if norm(c.args[0]) == idxv and mentions_name(c.args[1], datav) and isinstance(sd, ast.Call) and \
-                    any(t.key.startswith('thresha::') and 'random_split' in t.key for t in ctx.flow.rs.resolve_call(fd, sd)):
-                good = True
-        if good:
-            rep.ok('SS4', fd, c, 'row j of the split (point j+1) is sent to party j')
-        else:
-            rep.bad('SS4', fd, c, 'the share sent to a party is not the row of the split with that party\'s index')
-    fr_ = model.func(RT + '_reshare')
-    pmr = parents(fr_.node)
-    for c in calls_named(fr_.node, '_send_message'):
-        n += 1
-        lp = [l for l in enclosing_loops(c, pmr, stop=fr_.node) if isinstance(l, ast.For)]
-        good = False
-        if lp and isinstance(lp[0].iter, ast.Call) and attr_tail(lp[0].iter.func) == 'enumerate' and isinstance(lp[0].target, ast.Tuple):
-            idxv, datav = [norm(x) for x in lp[0].target.elts]
-            src = lp[0].iter.args[0]
-            sd = src
-            if isinstance(src, ast.Name):
-                rd = reaching_definitions(fr_.node, src.id, lp[0], pmr)
-                sd = rd[-1][1] if rd and rd[-1][1] is not None else src
-            if norm(c.args[0]) == idxv and mentions_name(c.args[1], datav) and isinstance(sd, ast.Call) and \
-                    any('random_split' in t.key for t in ctx.flow.rs.resolve_call(fr_, sd)):
-                good = True
-        if good:
-            rep.ok('SS4', fr_, c, 'row j of the split (point j+1) is sent to party j')
-        else:
-            rep.bad('SS4', fr_, c, 'the sub-share sent to a party is not the row of the split with that party\'s index')
+    # (d) dealing rows: row index == receiving party (decided on the routing summaries)
+    n += rules_rt.rule_SS4_rows(ctx, rep)
     if n < 9:
         raise AnalysisError(f'SS4: only {n} convention sites analysed (expected >= 9)')
-
-
-def _point_matches_receive(fn, pm, tup, comp, P):
-    """In output/_reshare: the party of a point equals the party its share was received from."""
-    g = comp.generators[0]
-    recvs = calls_named(fn.node, '_receive_message')
-    if len(recvs) != 1:
-        return False, 'receive site not found'
-    r = recvs[0]
-    peer = r.args[0]
-    Pm = _mod_term(P)
-    Rm = _mod_term(peer)
-    if Pm is None or Rm is None or norm(Pm[1]) != norm(Rm[1]):
-        return False, f'party of the point ({norm(P)}) and party received from ({norm(peer)}) are not both reduced modulo the party count'
-    Pl, Rl = _pid_lin(Pm[0]), _pid_lin(Rm[0])
-    if Pl is None or Rl is None:
-        return False, 'party expressions are not linear'
-    # index variables: point side
-    share_idx = tup.elts[1]
-    rcomp = [a for a in ancestors(r, pm) if isinstance(a, ast.ListComp)]
-    if rcomp:
-        # output: shares = [recv(f(j)) for j in range(t)]; points use shares[j]
-        jr = norm(rcomp[0].generators[0].target)
-        jp = norm(g.target)
-        sub = [n for n in ast.walk(share_idx) if isinstance(n, ast.Subscript)]
-        if not sub or norm(sub[0].slice) != jp:
-            return False, f'the share paired with x-coordinate {norm(tup.elts[0])} is not indexed by the same variable ({jp})'
-        if norm(rcomp[0].generators[0].iter) != norm(g.iter):
-            return False, 'points and receives enumerate different ranges'
-        if _subst(Rl, jr, Lin.sym(jp)) == Pl:
-            return True, f'point of share j is party {norm(P)} + 1, the party it was received from'
-        return False, f'share j is received from party {norm(peer)} but attributed to party {norm(P)}'
-    # _reshare: for v in range(..): shares[I(v)] = recv(v % m); points: for j, s in enumerate(shares)
-    st = astq.enclosing_stmt(r, pm)
-    if isinstance(st, ast.Assign) and isinstance(st.targets[0], ast.Subscript):
-        I = to_lin(st.targets[0].slice, opaque=False)
-        lp = [l for l in enclosing_loops(r, pm, stop=fn.node) if isinstance(l, ast.For)]
-        if I is None or not lp:
-            return False, 'store index of the received share not linear'
-        v = norm(lp[0].target)
-        if isinstance(g.iter, ast.Call) and attr_tail(g.iter.func) == 'enumerate' and isinstance(g.target, ast.Tuple):
-            jp = norm(g.target.elts[0])
-            sv = norm(g.target.elts[1])
-            if not mentions_name(share_idx, sv):
-                return False, 'the share paired with the x-coordinate is not the enumerated one'
-            # P(j) with j = I(v) must equal R(v) modulo m:  Pl[j := I] - Rl == 0
-            if (_subst(Pl, jp, I) - Rl) == Lin(0):
-                return True, f'slot j holds the share received from party {norm(P)}, and is attributed to point {norm(P)} + 1'
-            return False, f'slot index {norm(st.targets[0].slice)} / party {norm(peer)} on receive does not match party {norm(P)} used for the point'
-    return False, 'unrecognised pairing of received shares with points'
 
 
 # ---------------------------------------------------------------------------------- SS5
@@ -681,193 +561,15 @@ def _graph_roles(rep, rule, fn, ms, mr):
 
 
 def rule_SS6(ctx, rep):
-    """routing duality: the set of (sender, receiver) pairs implied by the send side equals the one
-    implied by the receive side (offset intervals modulo m); point counts t+1 / 2t+1."""
-    model = ctx.model
-    # ---- output
-    fn = model.func(RT + 'output')
-    pm = parents(fn.node)
-    sends = calls_named(fn.node, '_send_message')
-    recvs = calls_named(fn.node, '_receive_message')
-    if len(sends) != 1 or len(recvs) != 1:
-        raise AnalysisError('SS6: output no longer has one send site and one receive site')
-    s = sends[0]
-    env = _canon_env(fn)
-    guards = [i for i, br in enclosing_ifs(s, pm, stop=fn.node) if br == 'body' and _guard_interval(i.test, env)]
-    if not guards:
-        rep.bad('SS6', fn, s, 'the send in output is not governed by a modular interval test on (peer - self) % m: '
-                'shares go to parties that do not expect them (or expected shares are never sent)')
-    else:
-        inner, mod, lo, hi = _guard_interval(guards[0].test, env)
-        il = _pid_lin(inner, env)
-        peer = norm(s.args[0])
-        want = Lin.sym(peer) - Lin.sym(SELF)
-        rcomp = [a for a in ancestors(recvs[0], pm) if isinstance(a, ast.ListComp)]
-        okr = False
-        if rcomp:
-            g = rcomp[0].generators[0]
-            rb = _range_bounds(g.iter, env)
-            Rm = _mod_term(recvs[0].args[0])
-            if rb and Rm and _same_modulus(Rm[1], mod, env):
-                Rl = _pid_lin(Rm[0], env)
-                j = norm(g.target)
-                if Rl is not None and Rl.coef(j) == 1 and Rl.coef(SELF) == 1:
-                    base = Rl - Lin.sym(j) - Lin.sym(SELF)      # offset of first sender relative to self
-                    rlo, rhi = base + rb[0], base + rb[1]
-                    # senders offsets [rlo, rhi] must be the negation of receivers offsets [lo, hi]
-                    if il is not None and il == want and (rlo + hi) == Lin(0) and (rhi + lo) == Lin(0):
-                        okr = True
-                        cnt = rb[1] - rb[0] + 1
-                        rep.ok('SS6', fn, guards[0].test, f'a share goes to peers at offsets [{lo}, {hi}] mod m; a receiver collects from offsets [{rlo}, {rhi}]: same pairs')
-                        if cnt == Lin.sym('T'):
-                            rep.ok('SS6', fn, rcomp[0], 'exactly t foreign shares + own share = t+1 points (t = requested output threshold, default the runtime threshold)')
-                        else:
-                            rep.bad('SS6', fn, rcomp[0], f'{cnt} foreign shares are collected, expected t (the requested output threshold, default self.threshold)')
-        if not okr:
-            rep.bad('SS6', fn, guards[0].test, f'send guard `{norm(guards[0].test)}` and receive enumeration `{norm(recvs[0].args[0])}` do not describe the same '
-                    '(sender, receiver) pairs modulo len(self.parties): some receiver waits for a share nobody sends / recombines with a missing point')
-    # ---- _reshare
-    fn = model.func(RT + '_reshare')
-    pm = parents(fn.node)
-    sends = calls_named(fn.node, '_send_message')
-    recvs = calls_named(fn.node, '_receive_message')
-    splits = [c for c in iter_nodes(fn.node) if isinstance(c, ast.Call) and any('random_split' in t.key for t in ctx.flow.rs.resolve_call(fn, c))]
-    if len(sends) != 1 or len(recvs) != 1 or len(splits) != 1:
-        raise AnalysisError('SS6: _reshare no longer has one split, one send site and one receive site')
-    env = _canon_env(fn)
-    guards = [i for i, br in enclosing_ifs(splits[0], pm, stop=fn.node) if br == 'body']
-    gi = [g for g in guards if _guard_interval(g.test, env)]
-    lp = [l for l in enclosing_loops(recvs[0], pm, stop=fn.node) if isinstance(l, ast.For)]
-    ok2 = False
-    if gi and lp:
-        inner, mod, lo, hi = _guard_interval(gi[0].test, env)
-        il = _pid_lin(inner, env)
-        rb = _range_bounds(lp[0].iter, env)
-        Rm = _mod_term(recvs[0].args[0])
-        v = norm(lp[0].target)
-        if il is not None and rb and Rm and _same_modulus(Rm[1], mod, env) and norm(Rm[0]) == v and il.coef(SELF) == 1:
-            anchor = Lin.sym(SELF) - il                      # dealers are anchor + [lo, hi]
-            if (rb[0] - anchor - lo) == Lin(0) and (rb[1] - anchor - hi) == Lin(0):
-                cnt = hi - lo + 1
-                if cnt == Lin.sym('T') * 2 + 1:
-                    ok2 = True
-                    rep.ok('SS6', fn, gi[0].test, f'dealers are the parties {anchor} + [{lo}, {hi}] mod m on both the dealing and the collecting side: 2t+1 dealers')
-                else:
-                    rep.bad('SS6', fn, gi[0].test, f'{cnt} dealers take part in the resharing, expected 2t+1 with t = self.threshold (degree-2t products need 2t+1 points)')
-                    ok2 = True
-    if not ok2:
-        g0 = norm(guards[0].test) if guards else '<none>'
-        rep.bad('SS6', fn, guards[0].test if guards else splits[0], f'the dealer test `{g0}` and the collection loop `{norm(lp[0].iter) if lp else "?"}` do not describe the same '
-                'set of 2t+1 dealers modulo len(self.parties): a party outside the window deals as well / a dealer\'s sub-shares are never collected, so the new shares are inconsistent')
-    # own share excluded on both sides, used directly
-    sg = [norm(i.test) + ':' + br for i, br in enclosing_ifs(sends[0], pm, stop=fn.node)]
-    rg = [norm(i.test) + ':' + br for i, br in enclosing_ifs(recvs[0], pm, stop=fn.node)]
-    if any('!= self.pid:body' in x for x in sg) and any('!= self.pid:body' in x for x in rg):
-        rep.ok('SS6', fn, sends[0], 'no message to self on either side; the own sub-share is used directly')
-    else:
-        rep.bad('SS6', fn, sends[0], 'self-exclusion differs between the sending and the collecting side')
-    # slots and own point
-    slots = [st for st in iter_nodes(fn.node) if isinstance(st, ast.Assign) and isinstance(st.value, ast.BinOp) and isinstance(st.value.op, ast.Mult)
-             and isinstance(st.value.left, ast.List) and norm(st.value.left) == '[None]']
-    if slots and _pid_lin(slots[0].value.right, env) == Lin.sym('T') * 2 + 1:
-        rep.ok('SS6', fn, slots[0], '2t+1 slots for the dealers\' sub-shares')
-    else:
-        rep.bad('SS6', fn, fn.qualname, 'the number of slots for collected sub-shares is not 2t+1', fn.node)
-    # ---- transfer
-    fn = model.func(RT + 'transfer')
-    pm = parents(fn.node)
-    ms = [v for _, v, _ in definitions(fn.node, 'my_senders')]
-    mr = [v for _, v, _ in definitions(fn.node, 'my_receivers')]
-    sp, rp = 'senders', 'receivers'
-    ok_s = any(isinstance(v, ast.IfExp) and norm(v.body) == sp and norm(v.test) == f'self.pid in {rp}' and norm(v.orelse) == '[]' for v in ms)
-    ok_r = any(isinstance(v, ast.IfExp) and norm(v.body) == rp and norm(v.test) == f'self.pid in {sp}' and norm(v.orelse) == '[]' for v in mr)
-    if ok_s and ok_r:
-        rep.ok('SS6', fn, 'my_senders / my_receivers (bipartite form)', 'a party receives from all senders iff it is a receiver, and sends to all receivers iff it is a sender', fn.node)
-    else:
-        rep.bad('SS6', fn, 'my_senders / my_receivers (bipartite form)', 'the bipartite routing is not "receive from senders iff receiver; send to receivers iff sender": '
-                'some message is sent that nobody receives, or a receive is never matched', fn.node)
-    _graph_roles(rep, 'SS6', fn, ms, mr)
-    sends = calls_named(fn.node, '_send_message')
-    recvs = calls_named(fn.node, '_receive_message')
-    if len(sends) == 1 and len(recvs) == 1:
-        ls = [l for l in enclosing_loops(sends[0], pm, stop=fn.node) if isinstance(l, ast.For)]
-        lr = [l for l in enclosing_loops(recvs[0], pm, stop=fn.node) if isinstance(l, ast.For)]
-        gs = [norm(i.test) + ':' + br for i, br in enclosing_ifs(sends[0], pm, stop=fn.node)]
-        gr = [norm(i.test) + ':' + br for i, br in enclosing_ifs(recvs[0], pm, stop=fn.node)]
-        if ls and lr and norm(ls[0].iter) == 'my_receivers' and 'my_senders' in norm(lr[0].iter) and norm(sends[0].args[0]) == norm(ls[0].target) \
-                and gs == [f'{norm(ls[0].target)} != self.pid:body'] and len(gr) == 1 and gr[0].endswith('== self.pid:orelse'):
-            rep.ok('SS6', fn, sends[0], 'one message to every designated receiver except self; one receive from every designated sender except self')
-        else:
-            rep.bad('SS6', fn, sends[0], 'transfer does not send to exactly my_receivers minus self / receive from exactly my_senders minus self')
-    else:
-        raise AnalysisError('SS6: transfer message sites not found')
-    # ---- _distribute
-    fn = model.func(RT + '_distribute')
-    pm = parents(fn.node)
-    sends = calls_named(fn.node, '_send_message')
-    recvs = calls_named(fn.node, '_receive_message')
-    if len(sends) != 1 or len(recvs) != 1:
-        raise AnalysisError('SS6: _distribute message sites not found')
-    lr = [l for l in enclosing_loops(recvs[0], pm, stop=fn.node) if isinstance(l, ast.For)]
-    ls = [l for l in enclosing_loops(sends[0], pm, stop=fn.node) if isinstance(l, ast.For)]
-    good = False
-    if lr and len(ls) == 2 and ls[-1] is lr[-1]:
-        outer = lr[-1]
-        if isinstance(outer.iter, ast.Call) and attr_tail(outer.iter.func) == 'enumerate' and norm(outer.iter.args[0]) == 'senders':
-            pv = norm(outer.target.elts[1])
-            gr = [(norm(i.test), br) for i, br in enclosing_ifs(recvs[0], pm, stop=outer)]
-            gs = [(norm(i.test), br) for i, br in enclosing_ifs(sends[0], pm, stop=outer)]
-            inner = ls[0]
-            iv = norm(inner.target.elts[0]) if isinstance(inner.target, ast.Tuple) else None
-            if gr == [(f'{pv} == self.pid', 'orelse')] and (f'{pv} == self.pid', 'body') in gs and (f'{iv} == self.pid', 'orelse') in gs \
-                    and norm(recvs[0].args[0]) == pv and norm(sends[0].args[0]) == iv:
-                good = True
-    if good:
-        rep.ok('SS6', fn, sends[0], 'each sender deals to every other party; every party receives from each sender other than itself')
-    else:
-        rep.bad('SS6', fn, sends[0], 'input dealing does not pair "sender deals to all others" with "everyone receives from every other sender"')
+    """routing duality, decided on the relational routing summaries (rules_rt.py)."""
+    from . import rules_rt
+    rules_rt.rule_SS6(ctx, rep)
 
 
-# ---------------------------------------------------------------------------------- SO1: sender order / slot indices
 def rule_SO1(ctx, rep):
-    """results are delivered in sender order: slots are indexed by the position in the sender list."""
-    model = ctx.model
-    n = 0
-    for q, lst in (('_distribute', 'senders'), ('transfer', 'my_senders')):
-        fn = model.func(RT + q)
-        pm = parents(fn.node)
-        loops = [l for l in iter_nodes(fn.node) if isinstance(l, ast.For) and isinstance(l.iter, ast.Call) and attr_tail(l.iter.func) == 'enumerate'
-                 and l.iter.args and norm(l.iter.args[0]) == lst]
-        if len(loops) != 1:
-            raise AnalysisError(f'SO1: loop over enumerate({lst}) not found in {fn.key}')
-        lp = loops[0]
-        iv = norm(lp.target.elts[0])
-        # the result list: sized len(<lst>)
-        sized = [s for s in iter_nodes(fn.node) if isinstance(s, ast.Assign) and isinstance(s.value, ast.BinOp) and isinstance(s.value.op, ast.Mult)
-                 and norm(s.value.left) == '[None]' and norm(s.value.right) == f'len({lst})']
-        if len(sized) != 1:
-            raise AnalysisError(f'SO1: result list sized len({lst}) not found in {fn.key}')
-        res = norm(sized[0].targets[0])
-        stores = [s for s in iter_nodes(lp) if isinstance(s, ast.Assign) and isinstance(s.targets[0], ast.Subscript) and norm(s.targets[0].value) == res]
-        if len(stores) < 2:
-            raise AnalysisError(f'SO1: stores into {res} not found in {fn.key}')
-        for s in stores:
-            n += 1
-            if norm(s.targets[0].slice) == iv:
-                rep.ok('SO1', fn, s, f'slot = position of the sender in {lst}')
-            else:
-                rep.bad('SO1', fn, s, f'result slot {norm(s.targets[0].slice)} is not the position ({iv}) of the sender in the sender list: values end up in the wrong order '
-                        '(or out of range) whenever sender ids differ from positions')
-        # the sender list keeps the caller's order
-        for st, v, how in definitions(fn.node, lst if lst == 'senders' else 'senders'):
-            if v is not None and isinstance(v, ast.Call) and attr_tail(v.func) in ('set', 'sorted', 'frozenset', 'reversed'):
-                rep.bad('SO1', fn, st, 'the sender list is passed through an order-destroying constructor')
-    fi = model.func(RT + 'input')
-    for st, v, how in definitions(fi.node, 'senders'):
-        if v is not None and any(isinstance(c, ast.Call) and attr_tail(c.func) in ('set', 'sorted', 'frozenset', 'reversed') for c in ast.walk(v)):
-            rep.bad('SO1', fi, st, 'the sender list is passed through an order-destroying constructor')
-    if n < 4:
-        raise AnalysisError('SO1: too few slot stores analysed')
+    """sender order of result slots, decided on the routing summaries (rules_rt.py)."""
+    from . import rules_rt
+    rules_rt.rule_SO1(ctx, rep)
 
 
 # ---------------------------------------------------------------------------------- SS7
